@@ -10,6 +10,11 @@ CHECKS = {
          "Every execution with <=k dup/delay/drop deviations inside a fault window, for a list of configurations, workloads, reader modes and scripted key updates / window changes / link-MTU changes, is run on the real client and server; every chunk either application obtains is compared with the written pattern (offset-exact, gap-free for ordered, disjoint for unordered), end-of-stream and reset codes are checked, and the transfer must complete. Component-level BFS by replay (Assembler, SendBuffer, RangeSet, Dedup) against reference models is merged into the same evidence.",
          "Model TLS replaces rustls; payload is a fixed pattern; at most k deviations per execution inside the stated windows.",
          "DESIGN.md#c01"),
+ "C03": ("E3", "fault_enumeration",
+         "exhaustive hostile-input enumeration against unmodified real endpoints through a puppet peer (authenticated frames), a transport-parameter override and raw datagrams",
+         "A puppet peer holding the model-TLS keys replaces one side of an honest connection in a chosen state (handshaking with Initial or Handshake keys, established, mid-transfer, locally closed) and sends every single frame of a hostile alphabet (all frame types at boundary values, malformed and unknown encodings), every ordered pair in 1-RTT and 1000-fold repetitions of resource-consuming frames, against client and server victims under five local configurations. Oracle: no panic, bounded activity, bounded heap growth (counting allocator), a bystander connection on the same endpoint completes, and if the victim terminates, the transport error code is in the set RFC 9000 prescribes/permits for that input and equals the code in CONNECTION_CLOSE on the wire; legal inputs must not terminate. Every transport-parameter edit of a list (boundary values, absent, duplicated, wrong lengths, CID-echo and server-only parameters, truncation at every byte) in both directions: never a panic, valid encodings never rejected, failures only with TRANSPORT_PARAMETER_ERROR. Arbitrary short datagrams into Endpoint::handle in both roles.",
+         "The property allows hostile input to be ignored, so acceptance of an invalid encoding is counted but not flagged; heap bound is a fixed threshold.",
+         "DESIGN.md#c03"),
  "C04": ("E3", "fault_enumeration",
          "exhaustive duplication / mutation / probe enumeration on real endpoints with wire-level ledger and differential oracle",
          "Every emitted datagram of each baseline is re-delivered after each delay of a list (pairs in thorough) incl. forced key updates: per frame type the receiver must not process more frames than the sender put on the wire (harness decoder). Every (datagram x mutation) corrupted copy is injected and the run must be application-equivalent to the uninjected run (wire-identical after the handshake). Stateless-reset probes (exact / every bit flipped / other CID / other address / too short), Version Negotiation and forged Retry packets are injected at every step index against both roles.",
